@@ -25,12 +25,17 @@ def main():
     ap.add_argument('--tier', default='quick')
     ap.add_argument('--skip-confirm', action='store_true')
     ap.add_argument('--demo-flags', default='-fsanitize=address,undefined')
+    ap.add_argument('--fallback-base', default=None, help='revision to evaluate against when the patch does not apply to /repo HEAD (the change was written against an older head)')
     a = ap.parse_args()
     mdir = os.path.abspath(a.mutant)
     tag = '%s_%s_%d' % (a.pid, os.path.basename(mdir), os.getpid())
     wt = '/tmp/mv_' + tag
     res = {'mutant': mdir, 'property': a.pid}
     sh(['git', '-C', '/repo', 'worktree', 'add', '-q', '--detach', wt, 'HEAD'])
+    res['base'] = 'HEAD'
+    if a.fallback_base and sh(['git', '-C', wt, 'apply', '--check', os.path.join(mdir, 'patch.diff')]).returncode != 0:
+        sh(['git', '-C', wt, 'checkout', '-q', '--detach', a.fallback_base])
+        res['base'] = a.fallback_base
     try:
         demo = os.path.join(mdir, 'demo.cpp')
         flags = a.demo_flags.split()
